@@ -32,7 +32,7 @@ ASSUMPTIONS = [
     "Stroke widths are non-negative (lo - d <= hi + d needs d >= 0).",
     "Arc extremum angles (atan based enumeration over k) are numeric and not decided; only the ordered-box rule covers Arc.bbox.",
 ]
-FLOORS = {"R08.1": 9, "R08.2": 4, "R08.3": 4, "R08.4": 12, "R08.5": 4}
+FLOORS = {"R08.1": 9, "R08.2": 4, "R08.3": 4, "R08.4": 12, "R08.5": 4, "R08.6": 2}
 
 BBOXES = ["PathSegment.bbox", "Move.bbox", "QuadraticBezier.bbox", "CubicBezier.bbox", "Arc.bbox", "Shape.bbox", "Subpath.bbox", "Group.union_bbox", "Use.union_bbox"]
 
@@ -43,6 +43,7 @@ def run(ctx):
     ctx.rule("R08.3", "union of descendant boxes")
     ctx.rule("R08.4", "Bezier extremum formulas")
     ctx.rule("R08.5", "arc extremum candidates cover the whole angular range")
+    ctx.rule("R08.6", "the box of a path is built from what is drawn: pen moves are filtered by testing the segment")
     for q in BBOXES:
         ordered_box(ctx, q)
     stroke(ctx)
@@ -50,6 +51,7 @@ def run(ctx):
     quadratic(ctx)
     cubic(ctx)
     arc_candidates(ctx)
+    drawn_only(ctx)
 
 
 # --------------------------------------------------------------------------- R08.1
@@ -655,3 +657,27 @@ def arc_candidates(ctx):
     theta = ctx.m.cls("Arc").getters.get("theta")
     ok = theta is not None and "as_positive_degrees" in ast.unparse(theta)
     ctx.ob("R08.5", "Arc.theta in [0, 360]", ok, "", theta.lineno if theta is not None else 0, "the interval argument relies on a non-negative start angle")
+
+
+def drawn_only(ctx):
+    """A moveto draws nothing (SVG 1.1 section 11.4: a subpath consisting of a single moveto is not rendered); `M0,0 L1,1 M5,5` occupies
+    the box (0,0)-(1,1).  Shape.bbox and Subpath.bbox collect seg.bbox() over the segments with a filter; the filter has to look
+    at the segment.  `isinstance(<class>, <class>)` is a constant (a class object is never an instance of a segment class): nothing
+    is filtered and every Move end point enlarges the box."""
+    n = 0
+    for qual in ("Shape.bbox", "Subpath.bbox"):
+        fn = ctx.fn(qual, "R08.6")
+        comps = [c for c in ast.walk(fn) if isinstance(c, (ast.ListComp, ast.GeneratorExp)) and any(isinstance(x, ast.Call) and isinstance(x.func, ast.Attribute) and x.func.attr == "bbox" for x in ast.walk(c.elt))]
+        loops = [l for l in ast.walk(fn) if isinstance(l, ast.For) and any(isinstance(x, ast.Call) and isinstance(x.func, ast.Attribute) and x.func.attr == "bbox" for st in l.body for x in ast.walk(st))]
+        ctx.need(bool(comps) or bool(loops), "R08.6", "%s: collection of segment boxes not found" % qual)
+        for c in comps:
+            n += 1
+            var = c.generators[0].target.id if isinstance(c.generators[0].target, ast.Name) else None
+            tests = [t for g in c.generators for t in g.ifs]
+            const_tests = [t for t in tests for x in ast.walk(t) if isinstance(x, ast.Call) and call_name(x) == "isinstance" and x.args and isinstance(x.args[0], ast.Name) and x.args[0].id in ctx.m.classes]
+            on_segment = [t for t in tests for x in ast.walk(t) if isinstance(x, ast.Call) and call_name(x) == "isinstance" and len(x.args) == 2 and isinstance(x.args[0], ast.Name) and x.args[0].id == var
+                          and any(isinstance(y, ast.Name) and y.id == "Move" for y in ast.walk(x.args[1]))]
+            ctx.ob("R08.6", "%s[pen moves are not part of the box]" % qual, bool(on_segment) and not const_tests,
+                   "filter: %s" % ("; ".join(ast.unparse(t) for t in tests) or "none"), c.lineno,
+                   "the filter tests a class object, not the segment: it is always true, so the end point of every Move (also a trailing or stray one) enlarges the box")
+    ctx.need(n >= 2, "R08.6", "segment-box collections found: %d" % n)
